@@ -116,6 +116,8 @@ pub struct TlsPeer {
     log: Arc<Mutex<TlsLog>>,
     idx: usize,
     dead: bool,
+    /// KeyUpdate requests sent on this connection so far (at most one)
+    key_updates: u32,
 }
 
 impl TlsPeer {
@@ -128,7 +130,7 @@ impl TlsPeer {
             l.sessions.push(TlsSession { conn, ..Default::default() });
             l.sessions.len() - 1
         };
-        TlsPeer { tls, inner, log, idx, dead: false }
+        TlsPeer { tls, inner, log, idx, dead: false, key_updates: 0 }
     }
 }
 
@@ -150,6 +152,7 @@ struct TlsCtl<'a> {
     tls: &'a mut ServerConnection,
     log: &'a Arc<Mutex<TlsLog>>,
     idx: usize,
+    key_updates: &'a mut u32,
 }
 
 impl Ctl for TlsCtl<'_> {
@@ -162,6 +165,13 @@ impl Ctl for TlsCtl<'_> {
     fn send_at(&mut self, delay_ns: u64, data: Vec<u8>) {
         // records are encrypted in call order; scripts schedule with non-decreasing delays, so
         // delivery order equals record order
+        // (derived from the data, no draw) servers refresh their traffic keys in mid-response now and then and
+        // ask the client to do the same (TLS 1.3 KeyUpdate): record-layer housekeeping that concerns nobody above
+        // (once per connection: implementations cap the number of key updates they put up with)
+        if data.len() % 5 == 3 && *self.key_updates == 0 && !self.tls.is_handshaking() && self.tls.refresh_traffic_keys().is_ok() {
+            *self.key_updates += 1;
+            self.outer.count_fault("tls-key-update-requested");
+        }
         let _ = self.tls.writer().write_all(&data);
         let t = self.outer.now().saturating_add(delay_ns);
         self.log.lock().unwrap().sessions[self.idx].plaintext_out.push((t, data.len()));
@@ -201,7 +211,7 @@ impl Ctl for TlsCtl<'_> {
 impl Peer for TlsPeer {
     fn on_accept(&mut self, c: &mut dyn Ctl) {
         c.set_opaque();
-        let mut ctl = TlsCtl { outer: c, tls: &mut self.tls, log: &self.log, idx: self.idx };
+        let mut ctl = TlsCtl { outer: c, tls: &mut self.tls, log: &self.log, idx: self.idx, key_updates: &mut self.key_updates };
         self.inner.on_accept(&mut ctl);
     }
     fn on_bytes(&mut self, c: &mut dyn Ctl, data: &[u8]) {
@@ -253,16 +263,16 @@ impl Peer for TlsPeer {
         }
         flush(&mut self.tls, c, 0);
         if !plain.is_empty() {
-            let mut ctl = TlsCtl { outer: c, tls: &mut self.tls, log: &self.log, idx: self.idx };
+            let mut ctl = TlsCtl { outer: c, tls: &mut self.tls, log: &self.log, idx: self.idx, key_updates: &mut self.key_updates };
             self.inner.on_bytes(&mut ctl, &plain);
         }
     }
     fn on_client_eof(&mut self, c: &mut dyn Ctl) {
-        let mut ctl = TlsCtl { outer: c, tls: &mut self.tls, log: &self.log, idx: self.idx };
+        let mut ctl = TlsCtl { outer: c, tls: &mut self.tls, log: &self.log, idx: self.idx, key_updates: &mut self.key_updates };
         self.inner.on_client_eof(&mut ctl);
     }
     fn on_timer(&mut self, c: &mut dyn Ctl, token: u64) {
-        let mut ctl = TlsCtl { outer: c, tls: &mut self.tls, log: &self.log, idx: self.idx };
+        let mut ctl = TlsCtl { outer: c, tls: &mut self.tls, log: &self.log, idx: self.idx, key_updates: &mut self.key_updates };
         self.inner.on_timer(&mut ctl, token);
     }
     fn as_any(&mut self) -> &mut dyn Any {
